@@ -41,6 +41,9 @@ pub struct Step {
     pub msvc: bool,
     pub rspfile: Option<(String, String)>,
     pub description: Option<String>,
+    /// n2's display-only bindings.
+    pub hide_success: bool,
+    pub hide_progress: bool,
 }
 
 impl Default for EdgeKind {
@@ -162,6 +165,12 @@ impl Project {
                 if let Some(d) = &s.description {
                     t.push_str(&format!("  description = {}\n", esc_val(d)));
                 }
+                if s.hide_success {
+                    t.push_str("  hide_success = 1\n");
+                }
+                if s.hide_progress {
+                    t.push_str("  hide_progress = 1\n");
+                }
                 r
             };
             t.push_str("build");
@@ -202,11 +211,21 @@ impl Project {
             }
         }
         if with_defaults && !self.defaults.is_empty() {
-            t.push_str("default");
-            for d in &self.defaults {
-                t.push(' ');
-                t.push_str(&esc(d));
+            // Every other default is spelled through a file-level variable, as
+            // generators write them (`default $builddir/app`).
+            let mut line = String::from("default");
+            for (i, d) in self.defaults.iter().enumerate() {
+                line.push(' ');
+                let first = d.chars().next().filter(|c| c.is_ascii_alphanumeric());
+                match first {
+                    Some(c) if i % 2 == 0 => {
+                        t.push_str(&format!("dflt{} = {}\n", i, c));
+                        line.push_str(&format!("${{dflt{}}}{}", i, esc(&d[1..])));
+                    }
+                    _ => line.push_str(&esc(d)),
+                }
             }
+            t.push_str(&line);
             t.push('\n');
         }
         t
